@@ -845,15 +845,30 @@ qthread_t INTERNAL *qt_scheduler_get_thread(qt_threadqueue_t         *q,
             QTHREAD_TRYLOCK_LOCK(&q->qlock);
             PARANOIA_ONLY(sanity_check_queue(q));
             node = q->tail;
+            if ((node != NULL) && (node->value->flags & QTHREAD_REAL_MCCOY)) {
+                /* The McCoy thread can only run on worker 0.  Any other worker leaves it
+                 * where it is (it keeps its turn for worker 0) and takes the task in front
+                 * of it, instead of pulling it out and re-queueing it at the head. */
+                if (worker_id == NO_WORKER) {
+                    worker_id = qthread_worker(NULL);
+                }
+                if (worker_id != 0) {
+                    node = node->prev;
+                }
+            }
             if (node != NULL) {
                 assert(q->head);
                 assert(q->qlength > 0);
 
-                q->tail = node->prev;
-                if (q->tail == NULL) {
-                    q->head = NULL;
+                if (node->next == NULL) {
+                    q->tail = node->prev;
                 } else {
-                    q->tail->next = NULL;
+                    node->next->prev = node->prev;
+                }
+                if (node->prev == NULL) {
+                    q->head = node->next;
+                } else {
+                    node->prev->next = node->next;
                 }
                 assert(q->qlength > 0);
                 q->qlength--;
